@@ -123,7 +123,9 @@ class ActionScheduler(Asset):
         self._state = self._schedule[self._schedule_index][1]
         self._env.add_datapoint('schedule_update', self.name, (self.env.now, self.current_state))
         # Perform default or override actions on registered objects.
-        for obj, action in self._registered_objects.items():
+        # Actions may register or unregister objects, that takes
+        # effect with the next state change.
+        for obj, action in list(self._registered_objects.items()):
             if action == None:
                 self.default_action(obj, self.env.now, self.current_state)
             else:
